@@ -604,6 +604,10 @@ fn inherit_family(props: &str, out: &mut Vec<Fail>) -> usize {
         (Some("        pub fn f(&self) -> u32;\n        pub fn g(&mut self);\n".into()), false),
         (Some("        #[calling_convention(\"cdecl\")]\n        pub fn f(&self, a: u32) -> u32;\n        pub fn g(&mut self);\n".into()), false),
         (Some("        pub fn g(&mut self);\n        pub fn f(&self, a: u32) -> u32;\n".into()), false),
+        // a slot re-declared without its receiver: a first parameter `this: *const Derived` with the receiver's convention gives the
+        // same function-pointer type, but it is not the same receiver (seed C06-8)
+        (Some("        #[calling_convention(\"thiscall\")]\n        pub fn f(this: *const Derived, a: u32) -> u32;\n        pub fn g(&mut self);\n".into()), false),
+        (Some("        pub fn f(&self, a: u32) -> u32;\n        #[calling_convention(\"thiscall\")]\n        pub fn g(this: *mut Derived);\n".into()), false),
         // placeholders / internal names over a named base slot do not repeat it
         (Some("        #[index(1)]\n        pub fn g(&mut self);\n".into()), false),
         (Some("        pub fn _f(&self, a: u32) -> u32;\n        pub fn g(&mut self);\n".into()), false),
